@@ -284,7 +284,7 @@ func checkC19(c *mc.Ctx) {
 		}
 		c19Parsers(c, st, refPk)
 	}
-	c.Ev.Require("mixed-skip-vector", "structured-predicate", "parser-observer", "parser-replacer", "parser-replacer-returns-nothing", "parser-identity-replacer")
+	c.Ev.Require("mixed-skip-vector", "structured-predicate", "parser-observer", "parser-replacer", "parser-replacer-returns-nothing", "parser-identity-replacer", "parser-constant-slice-replacer")
 }
 
 // IdenticalRunsStream carries runs of byte-identical packets (null packets with the same undefined
@@ -382,8 +382,13 @@ func c19Parsers(c *mc.Ctx, st *Stream, refPk []*ref.Pkt) {
 	if plainObjs.Panic == nil && len(plainObjs.Errs) == 0 && st.Name != "headless-lookalikes" {
 		modes = append(modes, -2000)
 	}
+	// -3000: replacer that answers every unit of a PID with the same slice of four data (a per-PID constant it
+	// keeps): the slice belongs to the parser, the Demuxer delivers its contents and leaves it alone
+	modes = append(modes, -3000)
 	for _, mode := range modes {
 		groups := map[uint16][][]int{}
+		constSlice := map[uint16][]*astits.DemuxerData{}
+		constSnap := map[uint16][]string{}
 		byFirst := map[string][][]*astits.DemuxerData{}
 		if mode == -2000 {
 			// data of one unit are consecutive in the default output and share the FirstPacket
@@ -436,6 +441,16 @@ func c19Parsers(c *mc.Ctx, st *Stream, refPk []*ref.Pkt) {
 			}
 			groups[pid] = append(groups[pid], idx)
 			switch {
+			case mode == -3000:
+				if constSlice[pid] == nil {
+					for k := 0; k < 4; k++ {
+						d := &astits.DemuxerData{PID: pid, PES: &astits.PESData{Data: []byte{byte(pid), byte(k)}}}
+						constSlice[pid] = append(constSlice[pid], d)
+						constSnap[pid] = append(constSnap[pid], mc.Canon(d))
+					}
+				}
+				returned = append(returned, constSnap[pid]...)
+				return constSlice[pid], true, nil
 			case mode == -2000:
 				k := firstKey(ps[0])
 				if q := byFirst[k]; len(q) > 0 {
@@ -534,6 +549,18 @@ func c19Parsers(c *mc.Ctx, st *Stream, refPk []*ref.Pkt) {
 			c.Ev.Class("parser-observer", 1)
 			if len(o.Errs) > 0 || !equalStrs(got, plain) {
 				rep("parser-skip-false-changes-output", fmt.Sprintf("%d data with an observing parser, %d without", len(got), len(plain)))
+			}
+		case mode == -3000:
+			c.Ev.Class("parser-constant-slice-replacer", 1)
+			if len(o.Errs) > 0 || !equalStrs(got, returned) {
+				rep("parser-skip-true-not-substituted", fmt.Sprintf("%d data delivered, the parser returned %d (the same four data for every unit of a PID)", len(got), len(returned)))
+			}
+			for pid, sl := range constSlice {
+				for k, d := range sl {
+					if mc.Canon(d) != constSnap[pid][k] {
+						rep("parser-result-slice-modified", fmt.Sprintf("the slice the parser returned for PID %#x was modified by the Demuxer (element %d)", pid, k))
+					}
+				}
 			}
 		case mode == -2000:
 			c.Ev.Class("parser-identity-replacer", 1)
